@@ -22,7 +22,7 @@ func init() {
 		Rule: "all (sequence of length 0..N, start, stop, step) with bounds in {nil} U [-N-2,N+2] U int64 extremes and steps {nil,0,+-1,+-2,+-3,+-(N+1),extremes}, and all single indices, " +
 			"for arrays of distinct ints, ASCII strings, multi-byte strings, and strings of code points that share their low byte / low 16 bits with those ASCII letters (run before and after the ASCII ones in the same process); Arr#at/Str#at called directly (and through source for N<=3) and compared with a bignum reference slice; " +
 			"history: strs of length 1,2,3,5 of each kind first used by one of 18 other operations (_incBy, start of an iterated range, len, ord, iteration, +, ==, hashing as a map key, ...) and then indexed at both ends and sliced; " +
-			"non-trivial = the reference result is non-empty or an error, or a bound is out of range; distinct = distinct (kind,n,start,stop,step); round 7: A reeval family evaluates one slice expression (13 templates with one variable bound) inside a function for every sequence of 2 (thorough 3) values of the variable: each evaluation must give what that slice gives on its own.; round 8: Receivers built by operations next to a sibling built from the same parts (13 derivations x a window of bounds), arrays holding nil elements, and bounds that are ints without being int literals (boolean arithmetic, typed instances; a zero step so spelled must raise).",
+			"non-trivial = the reference result is non-empty or an error, or a bound is out of range; distinct = distinct (kind,n,start,stop,step); round 10: one range VALUE (held in a variable, passed to a function, listed in `at`) indexes receivers of 2-3 different lengths in turn (196 ranges x 6 length sequences x 3 routes x arrays and strs).; round 7: A reeval family evaluates one slice expression (13 templates with one variable bound) inside a function for every sequence of 2 (thorough 3) values of the variable: each evaluation must give what that slice gives on its own.; round 8: Receivers built by operations next to a sibling built from the same parts (13 derivations x a window of bounds), arrays holding nil elements, and bounds that are ints without being int literals (boolean arithmetic, typed instances; a zero step so spelled must raise).",
 		Assumptions: []string{
 			"reference = Python slice.indices semantics computed with math/big positions",
 			"don't-care: with a negative step, a start below -n may yield either [] (boundary reading) or [s[0]...] (position reading); both accepted",
@@ -48,6 +48,9 @@ type tcase struct {
 	// derived mode: the receiver is built by operations (Pre selects the derivation) next to a sibling built from
 	// the same parts; Sp spells the bounds as ints that are not int literals (1 boolean arithmetic, 2 typed instance)
 	Sp int `json:"sp,omitempty"`
+	// rangeobj mode: one range VALUE (held in a variable, passed to a function, listed in `at`) indexes receivers of
+	// the lengths Ns in turn; each use must select what the range selects on that receiver alone
+	Ns []int `json:"ns,omitempty"`
 }
 
 var arrDerivations = []string{
@@ -505,6 +508,83 @@ func run(c *core.Ctx) {
 	}, func(t tcase) string { return effectCases[t.Pre][0] }, func(t tcase, o panrun.Obs) { e.judgeEffect(t, o) })
 	// one slice expression with a variable bound, evaluated several times with different values
 	tk.Batched(c, 300, "", func(emit func(tcase)) { genReeval(c.Pick(2, 3), emit) }, reevalSrc, func(t tcase, o panrun.Obs) { e.judgeReeval(t, o) })
+	// one range value indexing receivers of different lengths in turn
+	tk.Batched(c, 300, "", func(emit func(tcase)) { genRangeObj(emit) }, rangeObjSrc, func(t tcase, o panrun.Obs) { e.judgeRangeObj(t, o) })
+}
+
+// ---------------------------------------------------------------- one range value used on several receivers
+
+func rangeObjSrc(t tcase) string {
+	ns := func(p *int64) string {
+		if p == nil {
+			return "nil"
+		}
+		return pstr(p)
+	}
+	r := "(" + ns(t.Start) + ":" + ns(t.Stop)
+	if t.Step != nil {
+		r += ":" + pstr(t.Step)
+	}
+	r += ")"
+	var lines, uses []string
+	for i, n := range t.Ns {
+		one := tcase{Kind: t.Kind, N: n}
+		lines = append(lines, fmt.Sprintf("x%d := %s", i, one.recvSrc()))
+		switch t.Pre {
+		case 0:
+			uses = append(uses, fmt.Sprintf("x%d[r]", i))
+		case 1:
+			uses = append(uses, fmt.Sprintf("sl(x%d, r)", i))
+		default:
+			uses = append(uses, fmt.Sprintf("x%d.at([r])", i))
+		}
+	}
+	return "r := " + r + "\nsl := {|x, rg| x[rg]}\n" + strings.Join(lines, "\n") + "\n[" + strings.Join(uses, ", ") + "]"
+}
+
+func rangeObjExpect(t tcase) string {
+	var parts []string
+	for _, n := range t.Ns {
+		one := tcase{Kind: t.Kind, N: n, Start: t.Start, Stop: t.Stop, Step: t.Step}
+		parts = append(parts, expectRepr(one, reference(one).pos))
+	}
+	return "[" + strings.Join(parts, ", ") + "]"
+}
+
+func genRangeObj(emit func(tcase)) {
+	bounds := []*int64{nil, ip(0), ip(1), ip(3), ip(6), ip(-1), ip(-3)}
+	steps := []*int64{nil, ip(1), ip(2), ip(-1)}
+	for _, kind := range []string{"arr", "ascii"} {
+		for _, ns := range [][]int{{3, 8}, {8, 3}, {3, 8, 3}, {0, 5}, {5, 0, 5}, {4, 4}} {
+			for _, a := range bounds {
+				for _, b := range bounds {
+					for _, st := range steps {
+						for pre := 0; pre < 3; pre++ {
+							emit(tcase{Kind: kind, Mode: "rangeobj", Ns: ns, Start: a, Stop: b, Step: st, Pre: pre})
+						}
+					}
+				}
+			}
+		}
+	}
+}
+
+func (e *env) judgeRangeObj(t tcase, o panrun.Obs) {
+	c := e.c
+	c.Eval(1)
+	c.Validated(1)
+	c.Nontrivial(1)
+	if o.Kind == "syntax" {
+		c.HarnessError("rangeobj case does not parse: %s: %s", rangeObjSrc(t), o.ErrMsg)
+		return
+	}
+	want := rangeObjExpect(t)
+	c.Outcome("rangeobj:" + o.Kind)
+	if o.Kind == "value" && o.Repr == want {
+		return
+	}
+	c.Violation(core.Violation{Key: "one-range-value-on-several-receivers/" + t.Kind + "/" + []string{"index", "passed-to-function", "at"}[t.Pre], Case: core.JSON(t), Desc: strings.ReplaceAll(rangeObjSrc(t), "\n", "; "),
+		Expected: want + " (each use selects what the range selects on that receiver alone)", Observed: o.Short(), Repro: "(" + strings.ReplaceAll(rangeObjSrc(t), "\n", "; ") + ").p\n"})
 }
 
 // ---------------------------------------------------------------- one slice expression evaluated repeatedly
@@ -686,6 +766,11 @@ func replay(c *core.Ctx, raw json.RawMessage) {
 		return
 	}
 	e := newEnv(c)
+	if t.Mode == "rangeobj" {
+		obs := c.R().Thunks("", []string{rangeObjSrc(t)}, "")
+		newEnv(c).judgeRangeObj(t, obs[0])
+		return
+	}
 	if t.Mode == "reeval" {
 		obs := c.R().Thunks("", []string{reevalSrc(t)}, "")
 		e.judgeReeval(t, obs[0])
